@@ -358,17 +358,18 @@ def verify_isolating(scratch, extra=(), max_rounds=8, log=None):
         raise Inconclusive('could not weave: ' + '; '.join(auto.values())[:300])
     # a failed obligation must be reproducible: re-run once with another solver seed and a larger resource limit and keep
     # only the failures both runs agree on (a proof that fails by solver luck is not a property violation)
-    if fails and not [h for h in hard if h['kind'] == 'compile']:
+    rl_hit = [h for h in hard if h['kind'] == 'rlimit']
+    if (fails or rl_hit) and not [h for h in hard if h['kind'] == 'compile']:
         extra2 = [x for x in extra if x not in ('--rlimit',) and not str(x).isdigit()]
-        res2 = run_verus(woven, extra2 + ['--rlimit', '100', '--smt-option', 'smt.random_seed=7', '--smt-option', 'sat.random_seed=7'])
+        res2 = run_verus(woven, extra2 + ['--rlimit', '300', '--smt-option', 'smt.random_seed=7', '--smt-option', 'sat.random_seed=7'])
         fails2, hard2 = classify(woven, res2)
         names2 = {f['obligation'] for f in fails2}
         owners2 = {f.get('owner') for f in fails2}
         kept = [f for f in fails if f['obligation'] in names2 or f.get('owner') in owners2]
         if log and len(kept) != len(fails):
             log(f'{len(fails) - len(kept)} failed obligation(s) did not reproduce with another solver seed: dropped as unstable')
-        if not kept and fails:
-            # nothing reproducible: use the second run's result wholesale
+        if (not kept and fails) or (rl_hit and not fails):
+            # nothing reproducible (or the first run only ran out of resources): use the second run's result wholesale
             res, fails, hard = res2, fails2, hard2
         else:
             fails = kept
